@@ -36,6 +36,7 @@ S_KIND = {"VarintSize32": "v32", "VarintSize64": "v64", "VarintSize32SignExtende
 HELPER = {"serialize_packed_field": "packed", "deserialize_packed_field": "packed", "calculate_serialized_size_packed_field": "packed",
           "serialized_size_cached_packed_field": "packed", "serialize_field": "field", "deserialize_field": "field",
           "calculate_serialized_size_field": "field", "serialized_size_cached_field": "field"}
+PB_MSG = ("SerializeWithCachedSizes", "SerializeToCodedStream", "ParseFromCodedStream", "MergeFromCodedStream", "ByteSizeLong", "GetCachedSize")
 WIRE_OF = {"v32": 0, "v64": 0, "f64": 1, "f32": 5}
 
 
@@ -107,6 +108,9 @@ def kinds_of(fn, table, role):
             if k_ in ("v32", "v64") and role in ("w", "s") and "SignExtended" not in nm:
                 k_ = varint_domain(ev, k_)
             out.add(k_)
+        elif nm in PB_MSG and "this" in ev:
+            # protobuf's own encoder/decoder/sizer for generated messages
+            out.add("pbmsg")
         elif cal.startswith("babylon::SerializationHelper::") and nm in HELPER:
             out.add(HELPER[nm])
         elif cal.startswith("babylon::SerializationHelper::") and nm in ("serialize", "deserialize", "calculate_serialized_size", "serialized_size_cached"):
@@ -127,7 +131,7 @@ def kinds_of(fn, table, role):
                 rv = strip_cast(ev.get("v"))
                 if isinstance(rv, dict) and rv.get("k") == "e":
                     ce = fn.events.get(rv["id"])
-                    if ce and ce.get("name") in ("size", "length", "ByteSizeLong"):
+                    if ce and ce.get("name") in ("size", "length"):
                         out.add("raw")
     if role == "r":
         names = set(ev.get("name") for _, ev in fn.all_events() if ev["e"] == "call")
@@ -175,7 +179,13 @@ def run(ctx):
                "serialize writes %s but deserialize reads %s" % (sorted(w), sorted(r)), site="%s@reader" % inst)
         wt = wire_type(recs, rec)
         if wt is not None and w and "member" not in w:
-            implied = set(WIRE_OF.get(k, 2) for k in w)
+            implied = set(WIRE_OF.get(k, 2) for k in w if k != "nested")
+            if "nested" in w:
+                # a forwarding trait (smart pointers) has the wire type of the trait it forwards to
+                for _, ev in ser.all_events():
+                    if ev["e"] == "call" and TRAIT_CALL.match(ev.get("callee", "") or "") and trait_of(ev.get("callee")) != rec:
+                        iw = wire_type(recs, trait_of(ev.get("callee")))
+                        implied.add(int(iw) if iw is not None else int(wt))
             ctx.ob("C11.R2b", inst, implied == {int(wt)}, ser.loc,
                    "WIRE_TYPE is %s but the write operations %s imply wire type %s: a protobuf peer (and "
                    "consume_unknown_field) would mis-frame this field" % (wt, sorted(w), sorted(implied)))
@@ -680,3 +690,19 @@ def run(ctx):
             ctx.ob("C11.R5b", "%s@%s" % (inst, u.line), (from_bul or from_size or const_val(a) is not None) and not decoded, u.where,
                    "memory is reserved from a count decoded from the input (a hostile length prefix allocates arbitrarily much)")
     ctx.floor("C11.R7a", n7, 8, "element loops in deserialize functions")
+
+
+SWEEP = ["serialization/test_aggregate.cpp",
+         "serialization/test_array.cpp",
+         "serialization/test_compatible.cpp",
+         "serialization/test_list.cpp",
+         "serialization/test_map.cpp",
+         "serialization/test_scalar.cpp",
+         "serialization/test_set.cpp",
+         "serialization/test_shared_ptr.cpp",
+         "serialization/test_string.cpp",
+         "serialization/test_traits.cpp",
+         "serialization/test_unique_ptr.cpp",
+         "serialization/test_vector.cpp",
+         "serialization/test_message.cpp",
+         "serialization/test_serializer.cpp"]
